@@ -384,6 +384,7 @@ def loop_while(engine, st, fr, s):
     if engine.cfg.concurrent:
         engine.interfere(st, "stmt")
     t_head = len(st.trace)
+    ctx = dict(ctx, head=st.copy())         # the state at the head of the arbitrary iteration (for clauses `if X held then, this iteration ...`)
     for st1, c in engine.ev(s.test, st, fr):
         if _is_raise(c):
             yield st1, ("raise", c.exc)
